@@ -12,7 +12,7 @@
                                            → ok <len> <fnv> file=… part=… idx=… | err:<E> …
     verify <q 0|1> <now>                   → ok | err:<E>
     save / restore                         → ok                                 (around a damage)
-    dmg del <name> | dmg set <name> <hex|-> | dmg deldat <date>  → ok
+    dmg del <name> | dmg set <name> <hex|-> | dmg deldat <date> | dmg delidx <date>  → ok
 -/
 import ZodbModel.DriverLib
 import ZodbModel.Repozo
@@ -181,7 +181,11 @@ def rzStep (s : DState) (toks : List String) : DState × String :=
     | _, _ => (s, "bad-op")
   | ["dmg", "deldat", d] =>
     match d.toNat? with
-    | some d => ({ s with repo := { s.repo with dats := delK d s.repo.dats } }, "ok")
+    | some d => ({ s with repo := delDat d s.repo }, "ok")
+    | none => (s, "bad-op")
+  | ["dmg", "delidx", d] =>
+    match d.toNat? with
+    | some d => ({ s with repo := delIdx d s.repo }, "ok")
     | none => (s, "bad-op")
   | _ => (s, "bad-op")
 
